@@ -190,6 +190,90 @@ theorem debit_spec {s t : Ledger} {a amt : Nat} (hw : WF s) (h : debit s a amt =
     have := hfree a'
     omega
 
+/-- pointwise effect of `balance_decrease` -/
+theorem balanceDecrease_point {s t : Ledger} {c a amt : Nat} (h : balanceDecrease s c a amt = .ok t) :
+    balance t c a + amt = balance s c a ∧ t.free = s.free ∧ t.ctx = s.ctx ∧ t.cids = s.cids ∧
+    (∀ c' a', ¬ (c' = c ∧ a' = a) → t.bal c' a' = s.bal c' a') := by
+  unfold balanceDecrease at h
+  split at h
+  · rename_i hz; cases h; exact ⟨by omega, rfl, rfl, rfl, fun _ _ _ => rfl⟩
+  · split at h
+    · cases h
+    · rename_i v hv
+      cases h
+      unfold checkedSub at hv
+      split at hv
+      · cases hv
+      · cases hv
+        refine ⟨?_, rfl, rfl, rfl, ?_⟩
+        · simp only [balance, updB, and_self, if_true, Option.getD_some] at *; omega
+        · intro c' a' hne; simp [updB, hne]
+
+/-- pointwise effect of `balance_increase` -/
+theorem balanceIncrease_point {s t : Ledger} {c a amt : Nat} (h : balanceIncrease s c a amt = .ok t) :
+    balance t c a = balance s c a + amt ∧ t.free = s.free ∧ t.ctx = s.ctx ∧ t.cids = s.cids ∧
+    (∀ c' a', ¬ (c' = c ∧ a' = a) → t.bal c' a' = s.bal c' a') := by
+  unfold balanceIncrease at h
+  split at h
+  · rename_i hz; cases h; exact ⟨by omega, rfl, rfl, rfl, fun _ _ _ => rfl⟩
+  · split at h
+    · cases h
+    · rename_i v hv
+      cases h
+      unfold checkedAdd at hv
+      split at hv
+      · cases hv
+      · cases hv
+        refine ⟨?_, rfl, rfl, rfl, ?_⟩
+        · simp only [balance, updB, and_self, if_true, Option.getD_some] at *
+        · intro c' a' hne; simp [updB, hne]
+
+/-- balance of the funding source designated by a frame stack -/
+def srcOf (ctx : List Nat) (s : Ledger) (a : Nat) : Nat :=
+  match ctx with
+  | c :: _ => balance s c a
+  | [] => (s.free a).getD 0
+
+/-- pointwise effect of `debit` on its source, and nothing else in storage moves -/
+theorem debit_point {s t : Ledger} {a amt : Nat} (h : debit s a amt = .ok t) :
+    srcOf s.ctx t a + amt = srcOf s.ctx s a ∧ t.ctx = s.ctx ∧ t.cids = s.cids ∧
+    (∀ c' a', s.ctx.head? ≠ some c' → t.bal c' a' = s.bal c' a') := by
+  unfold debit at h
+  split at h
+  · rename_i c rest hctx
+    obtain ⟨h1, _, h3, h4, h5⟩ := balanceDecrease_point h
+    refine ⟨by simp only [srcOf, hctx]; exact h1, h3, h4, ?_⟩
+    intro c' a' hne
+    apply h5
+    intro ⟨e, _⟩
+    rw [hctx] at hne; simp [e] at hne
+  · rename_i hctx
+    obtain ⟨_, hb, hf, _⟩ := externalSub_spec h
+    have hfa := hf a
+    simp only [if_true] at hfa
+    refine ⟨by simp only [srcOf, hctx]; exact hfa, ?_, ?_, ?_⟩
+    · unfold externalSub at h
+      split at h
+      · split at h
+        · cases h; rfl
+        · split at h
+          · cases h; rfl
+          · cases h
+      · split at h
+        · cases h; rfl
+        · cases h
+    · unfold externalSub at h
+      split at h
+      · split at h
+        · cases h; rfl
+        · split at h
+          · cases h; rfl
+          · cases h
+      · split at h
+        · cases h; rfl
+        · cases h
+    · intro c' a' _; rw [hb]
+
 theorem change_amount_spec_aux (s : Ledger) (initial : Nat → Option Nat) (refund a v : Nat)
     (h : changeAmount s initial true refund a = some v) :
     v = (initial a).getD 0 + (if a = s.base then refund else 0) := by
